@@ -87,6 +87,112 @@ def h_line_number():
 NAT = None
 
 
+class PrettyModels(__import__("mir_models").Models):
+    """render_malformed_output with the styling / text parts cut: `Decorator::line` is replaced by calls to the two real
+    number-formatting methods (the only arithmetic), expectation / output texts are constant"""
+
+    def __init__(self, prog):
+        super().__init__()
+        import re
+        from mir_exec import StringBuf, Str, find_method as fm, new_ref as nr
+        from mir_models import deref as dr, usize
+        line = fm(prog, "renderers/pretty.rs", "line")
+        eln = fm(prog, "renderers/pretty.rs", "expectation_line_number")
+        oln = fm(prog, "renderers/pretty.rs", "output_line_number")
+
+        def line_override(ctx, fname, args):
+            dec, line_no, exp_no, multiline = args[0], args[1], args[2], args[3]
+            ctx.notes.setdefault("numbers", []).append((line_no, exp_no))
+            ctx.call(eln, [dec, exp_no, multiline])
+            ctx.call(oln, [dec, line_no])
+            return StringBuf([SInt(ord("L"), "char")])
+        self.overrides[line] = line_override
+        tes = prog.resolve_call("Expectation::to_expression_string")
+        if tes:
+            self.overrides[tes] = lambda ctx, fname, args: StringBuf([SInt(ord("e"), "char")])
+        esc = prog.resolve_call("Escaper::escaped_expectation")
+        if esc:
+            self.overrides[esc] = lambda ctx, fname, args: StringBuf([SInt(ord("o"), "char")])
+        ins = lambda pat, fn: self.table.insert(0, (re.compile("^(?:%s)$" % pat), fn))
+        ins(r"<String as TailingSpacesHighlighter>::higlight_tailing_spaces|<&str as TailingSpacesHighlighter>::higlight_tailing_spaces",
+            lambda c, m, a: StringBuf(list(__import__("mir_models").as_str(a[0]).chars)))
+
+        def vec_len(c, m, a):
+            v = dr(a[0])
+            n = getattr(v, "sym_len", None)
+            return n if n is not None else usize(len(v.items))
+        ins(r"Vec::<Expectation>::len", vec_len)
+        ins(r"<usize as Add<&usize>>::add|<usize as Add>::add", lambda c, m, a: c.binop("Add", dr(a[0]), dr(a[1])))
+        ins(r"<&\[u8\] as BytesNewline>::ends_in_newline", lambda c, m, a: SBool(True))
+
+        def str_matches_count(c, m, a):
+            return __import__("mir_models").SeqIt([])
+        ins(r"core::str::<impl str>::matches::<char>", str_matches_count)
+
+
+def h_gutter():
+    from mir_exec import Agg, Opaque, SBool, StringBuf, VecBuf, mk_struct, new_ref, find_method as fm, mk_int
+    from mir_models import none
+
+    def expectation(ctx, tag):
+        return mk_struct("Expectation", optional=SBool(False), multiline=ctx.sym_bool(tag + "_multi"), rule=Opaque("rule"), original=StringBuf([]))
+
+    def item(ctx, kind, tag, n, m):
+        if kind == "U":
+            i = ctx.sym_int(tag + "_i", "usize")
+            ctx.add(z3.ULT(i.z(), n.z()))
+            return Agg("DiffLine", "UnmatchedExpectation", [i, expectation(ctx, tag)])
+        j = ctx.sym_int(tag + "_j", "usize")
+        ctx.add(z3.ULT(j.z(), m.z()))
+        lines = VecBuf([Agg("tuple", None, [j, VecBuf([SInt(ord("x"), "u8"), SInt(10, "u8")], "u8")])])
+        if kind == "X":
+            return Agg("DiffLine", "UnexpectedLines", [lines])
+        i = ctx.sym_int(tag + "_i", "usize")
+        ctx.add(z3.ULT(i.z(), n.z()))
+        return Agg("DiffLine", "MatchedExpectation", [i, expectation(ctx, tag), lines])
+
+    def mk(kinds):
+        def setup(ctx):
+            n = ctx.sym_int("n_expectations", "usize")
+            m = ctx.sym_int("n_output_lines", "usize")
+            ln = ctx.sym_int("line_number", "usize")
+            for v in (n, m, ln):
+                ctx.add(z3.ULT(v.z(), z3.BitVecVal(1200, 64)))
+            ctx.add(z3.UGE(ln.z(), 1))
+            items = [item(ctx, k, "it%d" % ix, n, m) for ix, k in enumerate(kinds)]
+            exps = VecBuf([])
+            exps.sym_len = n
+            tc = mk_struct("TestCase", title=StringBuf([]), shell_expression=StringBuf([SInt(ord("x"), "char")]), expectations=exps,
+                           exit_code=none(), line_number=ln, config=Opaque("config"))
+            outcome = mk_struct("Outcome", location=none(), output=Opaque("output"), testcase=tc, format=Opaque("format"),
+                                escaping=Agg("Escaper", "Unicode", []), result=Opaque("result"))
+            # counters as Diff::new computes them from the items; the line count is only bounded from below
+            nm = sum(1 for k in kinds if k == "M")
+            nu = sum(1 for k in kinds if k == "U")
+            nlines = sum(1 for k in kinds if k in ("M", "X"))
+            ctx.add(z3.UGE(m.z(), nlines))
+            diff = mk_struct("Diff", lines=VecBuf(items), count_matched=mk_int(nm, "usize"), count_unmatched=mk_int(nu, "usize"), count_output_lines=m)
+            rend = mk_struct("PrettyColorRenderer", max_surrounding_lines=mk_int(5, "usize"), absolute_line_numbers=ctx.sym_bool("absolute"),
+                             summarize=SBool(True))
+            ctx.notes["kinds"] = kinds
+            return [new_ref(rend), new_ref(outcome), new_ref(diff)]
+        return setup
+
+    def drive(ctx, args):
+        """PrettyColorRenderer::render_malformed_output (styling cut, number formatting real)"""
+        f = fm(ctx.program, "renderers/pretty.rs", "render_malformed_output")
+        return ctx.call(f, list(args))
+
+    def post(ctx, args, kind, value):
+        return kind == "return"
+    kinds_list = [["U"], ["M"], ["X"], ["U", "M"], ["M", "U"], ["X", "M"], ["M", "X"], ["U", "X"]]
+    inputs = [("diff items=%s" % "".join(k), mk(k)) for k in kinds_list]
+    return e2.Harness("pretty_gutter_width", drive, inputs, post, native="pretty_render", judge=None,
+                      describe="render_malformed_output never panics in its line-number arithmetic for any number of expectations / output "
+                               "lines and any diff items whose indices respect C02 (index < #expectations, line < #lines)",
+                      bound="1–2 diff items of every kind; #expectations, #output lines, test line number < 1200 symbolic (digit-count boundaries 10/100/1000); relative and absolute numbering")
+
+
 def run(pid, tier):
     global NAT
     rep = Report(pid, tier, "other")
@@ -106,6 +212,34 @@ def run(pid, tier):
     val2 = [[SInt(m, "usize"), some(SInt(rnd.randint(0, m), "usize"))] for m in (0, 1, 9, 10, 99, 100, 12345)]
     e2.process(rep, prog, NAT, hl, tier, validate_inputs=val2,
                to_native_args=lambda a: [a[0], a[1]["Some"] if isinstance(a[1], dict) else a[1]])
+    hg = h_gutter()
+    hg.models_cls = lambda: PrettyModels(prog)
+    resg = e2.run_with_raw(prog, hg)
+    for model, r in resg.raw_witnesses[:4]:
+        kinds = r.ctx.notes["kinds"]
+        args = r.ctx.notes["args"]
+        diff = args[2].loc.get()
+        outcome = args[1].loc.get()
+        from mir_exec import field_of as fo
+        n = e2.model_int(model, fo(fo(outcome, "testcase"), "expectations").sym_len)
+        its = []
+        for it in fo(diff, "lines").items:
+            if it.variant == "UnmatchedExpectation":
+                its.append({"kind": "U", "index": e2.model_int(model, it.fields[0])})
+            elif it.variant == "MatchedExpectation":
+                its.append({"kind": "M", "index": e2.model_int(model, it.fields[0]), "line": e2.model_int(model, it.fields[2].items[0].fields[0]),
+                            "multiline": bool(z3.is_true(model.eval(it.fields[1].fields[1].z(), model_completion=True)))})
+            else:
+                its.append({"kind": "X", "line": e2.model_int(model, it.fields[0].items[0].fields[0])})
+        w = {"expectations": min(n, 2000), "items": its, "absolute": bool(z3.is_true(model.eval(args[0].loc.get().fields[1].z(), model_completion=True))),
+             "line_number": min(e2.model_int(model, fo(fo(outcome, "testcase"), "line_number")), 10 ** 6)}
+        nk, nv = NAT.call("pretty_render", [w])
+        if nk == "panic":
+            rep.violation("pretty:gutter-underflow", "the pretty renderer panics (%s) on a failed test with %d expectations and diff items %s"
+                          % (str(nv)[:60], w["expectations"], its), {"kind": "eval", "fn": "pretty_render", "args": [w], "native": [nk, nv], "harness": hg.name})
+        else:
+            rep.mismatches.append("pretty_gutter_width: solver witness did not reproduce natively: %s → %s" % (w, str(nv)[:80]))
+    e2.record(rep, hg, resg)
     # second engine on the same claim: Kani on the compiled function (quick: it takes ~20 s)
     k = kani.run_harness("c19::c19_space_start_index_is_char_boundary", timeout_s=600)
     st = {"pass": "holds", "fail": "violated", "undecided": "undecided"}[k["status"]]
@@ -143,7 +277,8 @@ def run(pid, tier):
                        "witnesses replayed natively. Claimed only for the two crash-prone computations of the pretty renderer; "
                        "diff/json/yaml renderers and 'every difference is shown' are outside.",
         "functions_encoded": ["scrut::renderers::pretty::space_start_index", "scrut::renderers::pretty::Decorator::new",
-                              "scrut::renderers::pretty::Decorator::output_line_number"],
+                              "scrut::renderers::pretty::Decorator::output_line_number", "Decorator::expectation_line_number",
+                              "<PrettyColorRenderer as ErrorRenderer>::render_malformed_output (styling cut)"],
         "evaluations": tot_paths, "distinct_nontrivial": tot_paths,
         "rule": "one case = one feasible path of the MIR under one input shape; distinct by path condition",
         "samples": [s for sc in rep.subclaims for s in sc.get("samples", [])][:4] or ["see subclaims"],
